@@ -64,7 +64,12 @@ def d_s():
     return 's'
 
 
-VALIDATORS = {'v_not1': v_not1, 'nsv_no_x': nsv_no_x}
+def v_short(value, port):
+    """A list value may hold at most one element (a validator on a mutable value: what it accepted may change later)."""
+    return 'too long' if isinstance(value, list) and len(value) > 1 else None
+
+
+VALIDATORS = {'v_not1': v_not1, 'nsv_no_x': nsv_no_x, 'v_short': v_short}
 CALLABLES = {'d7': d7, 'd_s': d_s}
 NAMES = ['a', 'ab', 'n', 'm', 'x']
 
